@@ -650,7 +650,7 @@ impl<P: Problem> Populations<P> {
     ///
     /// # Panics
     ///
-    /// Panics if `n` is greater than `len() - 1`.
+    /// Panics if `n` is greater than `len()`.
     ///
     /// # Examples
     ///
@@ -691,7 +691,10 @@ impl<P: Problem> Populations<P> {
     /// ```
     pub fn rotate(&mut self, n: usize) {
         let len = self.stack.len();
-        self.stack[len - 1 - n..len].rotate_right(1);
+        let top = &mut self.stack[len - n..len];
+        if !top.is_empty() {
+            top.rotate_right(1);
+        }
     }
 
     /// Returns `true` if the stack contains no populations.
